@@ -3,6 +3,7 @@ import Octo.Lemmas.TyNonNull
 import Octo.Lemmas.TyInter
 import Octo.Lemmas.TyRecFree
 import Octo.Lemmas.TyTypeOfWf
+import Octo.Lemmas.TyTotal
 import Octo.Gen.C10Consts
 /-!
 # C10 — Type algebra laws hold
@@ -19,8 +20,10 @@ code by the C10 correspondence run on every check.  `conforms t v` is the Spec n
 type `t`".
 
 All theorems quantify over types/values of **any** size and nesting depth.  `TypeSum` is modelled with a
-fuel argument (`none` = fuel exhausted); its theorems hold for **every** fuel `n` and, by `typeSumF_mono`,
-a result never changes when more fuel is given.
+fuel argument (`none` = fuel exhausted); its theorems hold for **every** fuel `n`, by `typeSumF_mono` a result
+never changes when more fuel is given, and on well-formed types the default fuel is proved sufficient
+(`sum_total`: `TypeSum` terminates; likewise `inter_total`, `typeOf_total`), so the laws are not vacuous:
+`sum_lub` states them in the form "there **is** a result and it is …".
 
 Hypotheses that appear below:
 * `wf t` — *well formed*: hereditarily, union alternatives are plain (no nested union, no `Any`) with pairwise
@@ -122,6 +125,28 @@ theorem sum_least (n : Nat) (a b c t : Ty) (h : typeSumF n a b = some c) (wa : w
     (wt : wf t = true) (ha : a.is t = .is) (hb : b.is t = .is) : c.is t = .is :=
   leastFor_F n a b c t h wa wb wt ha hb
 
+/-- **termination**: on well-formed operands `TypeSum` needs at most fuel `2·(size a + size b)` -/
+theorem sum_terminates (a b : Ty) (wa : wf a = true) (wb : wf b = true) (n : Nat) (hn : 2 * (a.size + b.size) ≤ n) :
+    (typeSumF n a b).isSome = true := sum_total_aux _ n a b wa wb (Nat.le_refl _) hn
+
+/-- … hence the model's `typeSum` (default fuel) is total on well-formed types -/
+theorem sum_total (a b : Ty) (wa : wf a = true) (wb : wf b = true) : (typeSum a b).isSome = true :=
+  typeSum_total wa wb
+
+/-- the laws of `TypeSum` in one statement, without fuel: for well-formed `a`, `b` there is a result `c`; it is well
+    formed, below every well-formed upper bound of `a` and `b`, and — when the operands are shape compatible — an
+    upper bound of both -/
+theorem sum_lub (a b : Ty) (wa : wf a = true) (wb : wf b = true) :
+    ∃ c, typeSum a b = some c ∧ wf c = true ∧
+      (∀ t, wf t = true → a.is t = .is → b.is t = .is → c.is t = .is) ∧
+      (shapeOk a b = true → a.is c = .is ∧ b.is c = .is) := by
+  have tot := sum_total a b wa wb
+  cases h : typeSum a b with
+  | none => simp [h] at tot
+  | some c =>
+    exact ⟨c, rfl, sum_wf _ a b c h wa wb, fun t wt ha hb => sum_least _ a b c t h wa wb wt ha hb,
+      fun hok => sum_upper_partial _ a b c h hok⟩
+
 /-- `TypeSum` is commutative up to `Equals` (well-formed, shape-compatible operands; nested unions included) -/
 theorem sum_comm (n m : Nat) (a b s s' : Ty) (wa : wf a = true) (wb : wf b = true)
     (h : typeSumF n a b = some s) (h' : typeSumF m b a = some s')
@@ -144,6 +169,10 @@ theorem inter_sub_l (a b c : Ty) (wa : wf a = true) (wb : wf b = true) (h : type
     c.is a = .is := (inter_sub a b c wa wb h).1
 theorem inter_sub_r (a b c : Ty) (wa : wf a = true) (wb : wf b = true) (h : typeInter a b = some (some c)) :
     c.is b = .is := (inter_sub a b c wa wb h).2
+
+/-- `TypeIntersection` of well-formed operands never runs out of fuel -/
+theorem inter_total (a b : Ty) (wa : wf a = true) (wb : wf b = true) : (typeInter a b).isSome = true :=
+  typeInter_total wa wb
 
 /-! ## `NonNullable` -/
 
@@ -175,6 +204,10 @@ theorem typeOf_conforms_recfree (v : Value) (hv : v.noRecV = true) (t : Ty) (ht 
     inside has two or more fields -/
 theorem typeOf_wf (v : Value) (hv : v.narrowStructs = true) (t : Ty) (ht : v.typeOf = some t) : wf t = true :=
   typeOf_wf_aux v.size v (Nat.le_refl _) hv t ht
+
+/-- … and `Value.Type` never runs out of fuel on such values -/
+theorem typeOf_total (v : Value) (hv : v.narrowStructs = true) : (v.typeOf).isSome = true :=
+  typeOf_total_aux v.size v (Nat.le_refl _) hv
 
 /-- … and a struct value with two fields is reported with the field name `""` twice, which is not well formed
     (struct values carry no names; same root cause as finding `typeof-list-shape-mismatch`) -/
